@@ -295,7 +295,7 @@ func checkSetReversible(c *Ctx) {
 		pm := parentMap(pf.Decl.Body)
 		isSet := f.callNode(isCallTo(pSqlx, "", "SetReversible"))
 		okRet := func(n ast.Node) bool { return isReturn(n) && !inErrBranch(info, pm, n) }
-		n, found := f.reach([]point{f.entry()}, isSet, okRet, true)
+		n, found := f.reachErrAware([]point{f.entry()}, isSet, okRet, true)
 		c.Check("R17b", shortPkg(pp)+".PlanChanges|SetReversible on success paths", nodePos(n, pf.Decl.Pos()), !found, "PlanChanges can return a plan at %s without SetReversible having been called", c.nodeAtOrEnd(n))
 	}
 	// other stores to Plan.Reversible
